@@ -72,7 +72,9 @@ Record variant := {
   v_default_raw : bool;           (* Model::getDefinition's default definition carries the raw symbol name *)
   v_create_any : bool;            (* formal parameters are created without looking at the symbols of the logic *)
   v_formal_by_term : bool;        (* NameClashResolver compares terms (name+sort of nullary symbols) rather than names *)
-  v_assign_raw : bool;            (* get-assignment: raw names, seekp on the empty list, text used as a format *)
+  v_assign_raw : bool;            (* get-assignment prints the labels raw *)
+  v_assign_seekp : bool;          (* get-assignment: seekp(-1) also on the empty list (a lone closing parenthesis) *)
+  v_assign_format : bool;         (* get-assignment: the answer is passed to notify_formatted as the format *)
   v_echo_raw : bool;              (* get-value echo prints raw names, streams NULL for (as ..) nodes, glues "(!" *)
   v_core_raw : bool }.            (* get-unsat-core prints raw names *)
 
@@ -82,7 +84,8 @@ Definition faithful : variant :=
      v_view_key_bug := gen_disamb_key_is_view_data; v_sort_raw := gen_sort_raw_names;
      v_default_raw := gen_default_definition_raw_name; v_create_any := gen_formal_args_unchecked;
      v_formal_by_term := gen_clash_by_term;
-     v_assign_raw := gen_assignment_seekp_raw_format; v_echo_raw := gen_echo_raw_names; v_core_raw := gen_core_raw_names |}.
+     v_assign_raw := gen_assignment_raw_names; v_assign_seekp := gen_assignment_seekp_unguarded;
+     v_assign_format := gen_assignment_text_as_format; v_echo_raw := gen_echo_raw_names; v_core_raw := gen_core_raw_names |}.
 
 (* the pinned commit, written out: the refutations are stated about it and stay true when the tree is repaired;
    Properties_C17.model_is_pinned_code records that the working tree still is this variant *)
@@ -92,7 +95,14 @@ Definition pinned_tokenNames : list string :=
 Definition pinned : variant :=
   {| v_table := pinned_tokenNames; v_quote_empty := false; v_quote_minus_digit := false;
      v_view_key_bug := true; v_sort_raw := true; v_default_raw := true; v_create_any := true; v_formal_by_term := true;
-     v_assign_raw := true; v_echo_raw := true; v_core_raw := true |}.
+     v_assign_raw := true; v_assign_seekp := true; v_assign_format := true; v_echo_raw := true; v_core_raw := true |}.
+
+(* the tree when this file was last brought up to date: the pinned commit plus the repairs applied since
+   (36568bf: get-assignment guards the seekp and passes the answer as an argument of "%s") *)
+Definition current : variant :=
+  {| v_table := pinned_tokenNames; v_quote_empty := false; v_quote_minus_digit := false;
+     v_view_key_bug := true; v_sort_raw := true; v_default_raw := true; v_create_any := true; v_formal_by_term := true;
+     v_assign_raw := true; v_assign_seekp := false; v_assign_format := false; v_echo_raw := true; v_core_raw := true |}.
 
 (* words that the two lexers reserve and the table lacks *)
 Definition missing_reserved : list string :=
@@ -101,7 +111,7 @@ Definition missing_reserved : list string :=
 Definition repaired : variant :=
   {| v_table := gen_tokenNames ++ missing_reserved; v_quote_empty := true; v_quote_minus_digit := true;
      v_view_key_bug := false; v_sort_raw := false; v_default_raw := false; v_create_any := false; v_formal_by_term := false;
-     v_assign_raw := false; v_echo_raw := false; v_core_raw := false |}.
+     v_assign_raw := false; v_assign_seekp := false; v_assign_format := false; v_echo_raw := false; v_core_raw := false |}.
 
 (* ---------------------------------------------------------------------------------------------
    Logic::hasQuotableChars, isReservedWord, protectName *)
@@ -377,12 +387,15 @@ Fixpoint fmt_interp (s : string) : fmtres :=
 
 (* Interpret::getAssignment: names in insertion order with their values ("true" / "false" / "unknown") *)
 Definition assignment_text (v : variant) (l : list (string * string)) : fmtres :=
-  if v_assign_raw v then
-    let body := "(" ++ String.concat "" (map (fun p => "(" ++ fst p ++ " " ++ snd p ++ ") ") l) in
-    (* ss.seekp(-1, cur); ss << ')' : the last character is overwritten, also when it is the opening one *)
-    fmt_interp (removelast_str body ++ ")")
-  else
-    FmtOut ("(" ++ join " " (map (fun p => "(" ++ protectName v (fst p) false ++ " " ++ snd p ++ ")") l) ++ ")").
+  let nm := fun s => if v_assign_raw v then s else protectName v s false in
+  let body := "(" ++ String.concat "" (map (fun p => "(" ++ nm (fst p) ++ " " ++ snd p ++ ") ") l) in
+  (* ss.seekp(-1, cur); ss << ')' : the last character (the separator after the last pair) is overwritten; the pinned
+     code does so also when there is no pair and the last character is the opening parenthesis *)
+  let text := match l with
+              | [] => if v_assign_seekp v then removelast_str body ++ ")" else body ++ ")"
+              | _ => removelast_str body ++ ")"
+              end in
+  if v_assign_format v then fmt_interp text else FmtOut text.
 
 (* NamedUnsatCore: one name per line between "(" and ")" *)
 Definition core_names_text (v : variant) (names : list string) : string :=
